@@ -109,3 +109,157 @@ package lua
 //@ loop 1 invariant forall k int :: 0 <= k && k < old(rg.top) && !(regv <= k && k < regv+i) ==> rg.array[k] == old(rg.array[k])
 //@ loop 2 invariant Inv_reg(rg) && rg.top == regv + n && rg.top < oldtop && len(nilRange) == oldtop - rg.top && arrid(nilRange) == arrid(rg.array) && offset(nilRange) == rg.top && oldtop <= len(rg.array)
 //@ loop 2 invariant forall k int :: 0 <= k && k < regv+n ==> rg.array[k] == ite(k >= regv, ite(start+k-regv < 0 || start+k-regv >= old(lim0(rg, limit)), LNil, old(rg.array[start+k-regv])), old(rg.array[k]))
+
+// ---------------------------------------------------------------------------
+// callFrameStack (state.go): one interface contract, two implementations
+// ---------------------------------------------------------------------------
+
+//@ abstract callFrameStack.$inv(self) bool
+//@ abstract callFrameStack.$sp(self) int
+//@ abstract callFrameStack.$cap(self) int
+//@ abstract callFrameStack.$frame(self, i int) *callFrame
+
+//@ define frameIs(r *callFrame, v callFrame, idx int) bool = r.Idx == idx && r.Fn == v.Fn && r.Parent == v.Parent && r.Pc == v.Pc && r.Base == v.Base && r.LocalBase == v.LocalBase && r.ReturnBase == v.ReturnBase && r.NArgs == v.NArgs && r.NRet == v.NRet && r.TailCall == v.TailCall
+
+//@ iface callFrameStack.Push [C02 C05 C12]
+//@ requires $inv(self) && $sp(self) < $cap(self)
+//@ noraise
+//@ ensures  $inv(self) && $sp(self) == old($sp(self)) + 1 && $cap(self) == old($cap(self))
+//@ ensures  frameIs($frame(self, old($sp(self))), v, old($sp(self)))
+//@ ensures  forall i int :: 0 <= i && i < old($sp(self)) ==> $frame(self, i) == old($frame(self, i)) && unchanged($frame(self, i))
+//@ modifies ghost(self), type callFrame.*
+
+//@ iface callFrameStack.Pop [C02 C05 C12]
+//@ requires $inv(self) && $sp(self) >= 1
+//@ noraise
+//@ ensures  $inv(self) && $sp(self) == old($sp(self)) - 1 && $cap(self) == old($cap(self))
+//@ ensures  result == old($frame(self, $sp(self) - 1)) && unchanged(result)
+//@ ensures  forall i int :: 0 <= i && i < $sp(self) ==> $frame(self, i) == old($frame(self, i))
+//@ modifies ghost(self)
+
+//@ iface callFrameStack.Last [C02 C05 C12]
+//@ requires $inv(self)
+//@ noraise
+//@ ensures  ($sp(self) == 0 ==> result == nil) && ($sp(self) > 0 ==> result == $frame(self, $sp(self) - 1))
+//@ modifies nothing
+
+//@ iface callFrameStack.At [C02 C05 C12 C17]
+//@ requires $inv(self) && 0 <= sp && sp < $sp(self)
+//@ noraise
+//@ ensures  result == $frame(self, sp)
+//@ modifies nothing
+
+//@ iface callFrameStack.Sp [C02 C05 C12]
+//@ requires $inv(self)
+//@ noraise
+//@ ensures  result == $sp(self) && result >= 0
+//@ modifies nothing
+
+//@ iface callFrameStack.SetSp [C05 C12]
+//@ requires $inv(self) && 0 <= sp && sp <= $sp(self)
+//@ noraise
+//@ ensures  $inv(self) && $sp(self) == sp && $cap(self) == old($cap(self))
+//@ ensures  forall i int :: 0 <= i && i < sp ==> $frame(self, i) == old($frame(self, i))
+//@ modifies ghost(self)
+
+//@ iface callFrameStack.IsFull [C12]
+//@ requires $inv(self)
+//@ noraise
+//@ ensures  result <==> $sp(self) == $cap(self)
+//@ modifies nothing
+
+//@ iface callFrameStack.IsEmpty [C12]
+//@ requires $inv(self)
+//@ noraise
+//@ ensures  result <==> $sp(self) == 0
+//@ modifies nothing
+
+// --- fixedCallFrameStack
+
+//@ define $inv@fixedCallFrameStack(cs *fixedCallFrameStack) bool = cs != nil && 0 <= cs.sp && cs.sp <= len(cs.array) && offset(cs.array) == 0
+//@ define $sp@fixedCallFrameStack(cs *fixedCallFrameStack) int = cs.sp
+//@ define $cap@fixedCallFrameStack(cs *fixedCallFrameStack) int = len(cs.array)
+//@ define $frame@fixedCallFrameStack(cs *fixedCallFrameStack, i int) *callFrame = &cs.array[i]
+
+//@ func (*fixedCallFrameStack).Push
+//@ implements callFrameStack.Push
+//@ modifies cs.sp, cs.array[*]
+
+//@ func (*fixedCallFrameStack).Pop
+//@ implements callFrameStack.Pop
+//@ modifies cs.sp
+
+//@ func (*fixedCallFrameStack).Last
+//@ implements callFrameStack.Last
+//@ modifies nothing
+
+//@ func (*fixedCallFrameStack).At
+//@ implements callFrameStack.At
+//@ modifies nothing
+
+//@ func (*fixedCallFrameStack).Sp
+//@ implements callFrameStack.Sp
+//@ modifies nothing
+
+//@ func (*fixedCallFrameStack).SetSp
+//@ implements callFrameStack.SetSp
+//@ modifies cs.sp
+
+//@ func (*fixedCallFrameStack).IsFull
+//@ implements callFrameStack.IsFull
+//@ modifies nothing
+
+//@ func (*fixedCallFrameStack).IsEmpty
+//@ implements callFrameStack.IsEmpty
+//@ modifies nothing
+
+// --- autoGrowingCallFrameStack
+
+//@ trusted newCallFrameStackSegment [C12]
+//@ assume the segment pool hands out segments that no live stack references (modelled as freshly allocated)
+//@ noraise
+//@ ensures result != nil && fresh(result)
+//@ modifies nothing
+
+//@ trusted freeCallFrameStackSegment [C12]
+//@ noraise
+//@ modifies nothing
+
+//@ define $inv@autoGrowingCallFrameStack(cs *autoGrowingCallFrameStack) bool = cs != nil && offset(cs.segments) == 0 && 1 <= len(cs.segments) && len(cs.segments) <= 65535 && cs.segIdx < len(cs.segments) && cs.segSp <= 8 && (forall s int :: 0 <= s && s <= cs.segIdx ==> cs.segments[s] != nil) && (forall s int, t int :: 0 <= s && s < t && t <= cs.segIdx ==> cs.segments[s] != cs.segments[t])
+//@ define $sp@autoGrowingCallFrameStack(cs *autoGrowingCallFrameStack) int = cs.segSp + cs.segIdx * 8
+//@ define $cap@autoGrowingCallFrameStack(cs *autoGrowingCallFrameStack) int = 8 * len(cs.segments)
+//@ define $frame@autoGrowingCallFrameStack(cs *autoGrowingCallFrameStack, i int) *callFrame = &cs.segments[i/8].array[i%8]
+
+//@ func (*autoGrowingCallFrameStack).Push
+//@ implements callFrameStack.Push
+//@ modifies cs.segIdx, cs.segSp, cs.segments[*], type callFrame.*
+
+//@ func (*autoGrowingCallFrameStack).Pop
+//@ implements callFrameStack.Pop
+//@ modifies cs.segIdx, cs.segSp, cs.segments[*]
+
+//@ func (*autoGrowingCallFrameStack).Last
+//@ implements callFrameStack.Last
+//@ modifies nothing
+
+//@ func (*autoGrowingCallFrameStack).At
+//@ implements callFrameStack.At
+//@ modifies nothing
+
+//@ func (*autoGrowingCallFrameStack).Sp
+//@ implements callFrameStack.Sp
+//@ modifies nothing
+
+//@ func (*autoGrowingCallFrameStack).SetSp
+//@ implements callFrameStack.SetSp
+//@ modifies cs.segIdx, cs.segSp, cs.segments[*]
+//@ loop 1 invariant $inv(cs) && cs.segIdx <= old(cs.segIdx) && (cs.segIdx == old(cs.segIdx) || cs.segIdx >= desiredSegIdx) && desiredSegIdx == sp / 8 && desiredFramesInLastSeg == sp % 8 && len(cs.segments) == old(len(cs.segments)) && cs.segSp == old(cs.segSp)
+//@ loop 1 invariant forall s int :: 0 <= s && s <= cs.segIdx ==> cs.segments[s] == old(cs.segments[s])
+
+//@ func (*autoGrowingCallFrameStack).IsFull
+//@ implements callFrameStack.IsFull
+//@ modifies nothing
+
+//@ func (*autoGrowingCallFrameStack).IsEmpty
+//@ implements callFrameStack.IsEmpty
+//@ modifies nothing
